@@ -25,7 +25,11 @@ def main():
     if a.replay:
         with open(a.replay) as f:
             rp = json.load(f)
-        wl.replay(rp['case'], rec)
+        if isinstance(rp['case'], dict) and rp['case'].get('ambient'):
+            from vt import ambient_shard
+            ambient_shard.run_pytest(a.pid, rec, only=rp['case']['ambient'])     # the witness is a test of the repository: run it alone under the same monitors
+        else:
+            wl.replay(rp['case'], rec)
     else:
         rng = random.Random(a.seed * 1000 + a.shard)
         np.random.seed((a.seed * 1000 + a.shard) % (2**32))
